@@ -690,32 +690,31 @@ def expand(ctx, t, sizes):
 
 
 def reshape(ctx, t, sizes):
-    """row-major reinterpretation; sizes: list of z3 Int terms, at most one literal -1"""
+    """row-major reinterpretation; sizes: list of z3 Int terms, at most one literal -1.
+    Target sizes are matched against runs of consecutive source atoms from the left and from the
+    right; only an unmatched middle block is re-indexed through its own linear index."""
     sizes = [z3.simplify(s) for s in sizes]
     neg = [i for i, s in enumerate(sizes) if z3.is_int_value(s) and s.as_long() == -1]
     if len(neg) > 1:
         raise PyRaise(VExc("RuntimeError", "only one dimension can be inferred"))
     src_atoms = t.all_atoms()
-    # drop literal-1 atoms on the source side for matching purposes (keep positions)
-    src = [(i, a) for i, a in enumerate(src_atoms)]
+    src = list(enumerate(src_atoms))
 
-    def match_left(sz_list, src_list):
-        """greedy: each target size = product of a run of consecutive source atoms; returns list of runs or None"""
+    def match(sz_list, src_list):
+        """greedy left-to-right; returns (runs, n_sizes_matched, n_src_consumed)"""
         runs = []
         p = 0
-        for s in sz_list:
+        for si, s in enumerate(sz_list):
+            if z3.is_int_value(s) and s.as_long() == -1:
+                return runs, si, p
             if is_one(ctx, s):
-                # consume literal-one source atoms only if next source atom is also one
                 if p < len(src_list) and is_one(ctx, src_list[p][1]):
                     runs.append([src_list[p]])
                     p += 1
                 else:
                     runs.append([])
                 continue
-            run = []
-            prod = None
-            ok = False
-            q = p
+            run, prod, ok, q = [], None, False, p
             while q < len(src_list) and len(run) < 4:
                 a = src_list[q][1]
                 run.append(src_list[q])
@@ -725,48 +724,80 @@ def reshape(ctx, t, sizes):
                     ok = True
                     break
             if not ok:
-                return None, p
+                return runs, si, p
             runs.append(run)
             p = q
-        return runs, p
+        return runs, len(sz_list), p
 
-    if neg:
-        ni = neg[0]
-        left, p = match_left(sizes[:ni], src)
-        if left is not None:
-            right_sizes = sizes[ni + 1:]
-            rruns, q = match_left(list(reversed(right_sizes)), list(reversed(src[p:])))
-            if rruns is not None:
-                rruns = [list(reversed(r)) for r in reversed(rruns)]
-                mid = src[p: len(src) - q]
-                runs = left + [mid] + rruns
-                return _regroup(t, src_atoms, runs)
-    else:
-        runs, p = match_left(sizes, src)
-        if runs is not None and all(is_one(ctx, a) for _, a in src[p:]):
-            return _regroup(t, src_atoms, runs)
-    # general fallback through the linear index of the whole tensor
+    lruns, ls, lp = match(sizes, src)
+    if ls == len(sizes) and all(is_one(ctx, a) for _, a in src[lp:]):
+        return _regroup(t, src_atoms, lruns)
+    rruns_rev, rs, rp = match(list(reversed(sizes[ls:])), list(reversed(src[lp:])))
+    # right match walks reversed lists: products are commutative so same_extent still applies
+    rruns = [list(reversed(r)) for r in reversed(rruns_rev)]
+    mid_sizes = sizes[ls: len(sizes) - rs]
+    mid_src = src[lp: len(src) - rp]
+    if not mid_sizes:
+        if all(is_one(ctx, a) for _, a in mid_src):
+            return _regroup(t, src_atoms, lruns + rruns)
+        raise PyRaise(VExc("RuntimeError", "reshape: sizes do not cover the tensor"))
+    if len(mid_sizes) == 1:
+        # one target dim takes the whole unmatched source block (this is where -1 lands, too)
+        return _regroup(t, src_atoms, lruns + [mid_src] + rruns)
+    # general: re-index the middle block through its linear index
+    mid_atoms = [a for _, a in mid_src]
     total = None
-    for a in src_atoms:
+    for a in mid_atoms:
         total = a if total is None else total * a
     total = total if total is not None else z3.IntVal(1)
-    if neg:
+    mid_sizes = list(mid_sizes)
+    negm = [i for i, s in enumerate(mid_sizes) if z3.is_int_value(s) and s.as_long() == -1]
+    if negm:
         known = None
-        for i, s in enumerate(sizes):
-            if i != neg[0]:
+        for i, s in enumerate(mid_sizes):
+            if i != negm[0]:
                 known = s if known is None else known * s
-        known = known if known is not None else z3.IntVal(1)
-        # single source atom split as (x, known...) or (known..., x)
-        sizes = list(sizes)
-        sizes[neg[0]] = z3.simplify(py_floordiv(total, known))
-    new_atoms = sizes
+        mid_sizes[negm[0]] = z3.simplify(py_floordiv(total, known))
+    ldims, lorder = _runs_to_dims(lruns)
+    rdims, rorder = _runs_to_dims(rruns)
+    n_src = len(src_atoms)
+    mid_pos = [i for i, _ in mid_src]
+    nl = sum(len(d.atoms) for d in ldims)
+    nm = len(mid_sizes)
 
     def elem(idx):
-        L = flat_index(new_atoms, idx)
-        old = unflatten(src_atoms, L) if len(src_atoms) > 1 else [L]
+        old = [z3.IntVal(0)] * n_src
+        p = 0
+        for d, o in zip(ldims, lorder):
+            if o is not None:
+                for j, i in enumerate(o):
+                    old[i] = idx[p + j]
+            p += len(d.atoms)
+        L = flat_index(mid_sizes, idx[p: p + nm])
+        vals = unflatten(mid_atoms, L) if len(mid_atoms) > 1 else [L]
+        for i, v in zip(mid_pos, vals):
+            old[i] = v
+        p += nm
+        for d, o in zip(rdims, rorder):
+            if o is not None:
+                for j, i in enumerate(o):
+                    old[i] = idx[p + j]
+            p += len(d.atoms)
         return t.elem(old)
 
-    return VTensor([Dim([s]) for s in new_atoms], elem, t.sort)
+    return VTensor(ldims + [Dim([s]) for s in mid_sizes] + rdims, elem, t.sort)
+
+
+def _runs_to_dims(runs):
+    dims, order = [], []
+    for run in runs:
+        if not run:
+            dims.append(Dim([1]))
+            order.append(None)
+        else:
+            dims.append(Dim([a for _, a in run]))
+            order.append([i for i, _ in run])
+    return dims, order
 
 
 def _regroup(t, src_atoms, runs):
@@ -1369,6 +1400,20 @@ def m_sum(t, it, ctx, a, k, mean=False):
 def m_any_all(is_any):
     def m(t, it, ctx, a, k):
         dim = a[0] if a else k.get("dim")
+        if dim is None or dim is NONE:
+            # full reduction: a fresh Bool p with the universally valid fact
+            #   any:  elem(idx) => p        all:  p => elem(idx)          (for every in-range idx)
+            # recorded on the path and instantiated by the contract at the indices it reasons about
+            # (the converse direction is omitted: fewer proofs, never a wrong one)
+            p = z3.Bool(fresh("any" if is_any else "all"))
+
+            def fact(idx, t=t, p=p):
+                e = t.elem(list(idx))
+                e = e if z3.is_bool(e) else (e != 0)
+                return z3.Implies(t.in_range(idx), z3.Implies(e, p) if is_any else z3.Implies(p, e))
+
+            ctx.ghost.setdefault("forall_facts", []).append((t.natoms(), fact))
+            return VTensor([], lambda idx: p, "bool")
         cnt = m_sum(pointwise(ctx, [t], lambda x: z3.If(x if z3.is_bool(x) else x != 0, z3.IntVal(1), z3.IntVal(0)), sort="int"),
                     it, ctx, [dim] if dim is not None else [], {})
         if is_any:
@@ -1614,13 +1659,23 @@ def tensor_getattr(t, it, ctx, name):
 
 
 # ------------------------------------------------------------------ symbolic inputs ---------
-def sym_tensor(name, extents, sort="real", is_linop=False, structured=None):
+def sym_tensor(name, extents, sort="real", is_linop=False, symmetric=False):
     """an arbitrary tensor: uninterpreted function of its (flat, per-dim) indices.
-    extents: list of z3 Int terms (one atom per dim)."""
+    extents: list of z3 Int terms (one atom per dim).  symmetric=True: symmetric in its last two
+    indices by construction (U(.., min, max)) -- for covariance matrices."""
     zs = {"real": z3.RealSort(), "int": z3.IntSort(), "bool": z3.BoolSort()}[sort]
     f = z3.Function(name, *([z3.IntSort()] * len(extents) + [zs])) if extents else None
     c = z3.Const(name, zs) if not extents else None
-    t = VTensor([Dim([e]) for e in extents], (lambda idx: f(*idx)) if extents else (lambda idx: c), sort, is_linop,
+
+    def elem(idx):
+        if not extents:
+            return c
+        if symmetric:
+            p, q = idx[-2], idx[-1]
+            return f(*(list(idx[:-2]) + [z3.If(p <= q, p, q), z3.If(p <= q, q, p)]))
+        return f(*idx)
+
+    t = VTensor([Dim([e]) for e in extents], elem, sort, is_linop,
                 label=name, linop_class="DenseLinearOperator" if is_linop else None)
     t.meta["uf"] = f
     return t
